@@ -1212,6 +1212,18 @@ fn parse_expression(
     id_gen: &mut IdGenerator,
     diagnostics: &mut Vec<ParseError>,
 ) -> Expression {
+    parse_expression_with(tokens, id_gen, diagnostics, true)
+}
+
+/// Parse an expression. If `allow_binary_ops` is false, stop before
+/// any infix binary operator: this is used for the right hand
+/// operand of a binary operator, so operators associate to the left.
+fn parse_expression_with(
+    tokens: &mut TokenStream,
+    id_gen: &mut IdGenerator,
+    diagnostics: &mut Vec<ParseError>,
+    allow_binary_ops: bool,
+) -> Expression {
     let mut expr = parse_expression_no_trailing(tokens, id_gen, diagnostics);
 
     loop {
@@ -1319,50 +1331,27 @@ fn parse_expression(
                     );
                 }
             }
-            Some(token) if token_as_binary_op(&token).is_some() => {
+            Some(token) if allow_binary_ops && token_as_binary_op(&token).is_some() => {
                 // Parse an infix binary operator, such as `foo +
                 // bar`. We currently assume that every operator has
                 // the same precedence and is left-associative, so
                 // `x OP y OP z` is the same as `(x OP y) OP z`
                 tokens.pop();
 
-                let rhs_expr = parse_expression(tokens, id_gen, diagnostics);
+                // The right hand operand stops before the next
+                // operator, which this loop then applies to the
+                // whole expression so far.
+                let rhs_expr = parse_expression_with(tokens, id_gen, diagnostics, false);
 
-                match rhs_expr.expr_ {
-                    Expression_::BinaryOperator(next_lhs, next_op, next_rhs) => {
-                        // Our recursive logic gives us right-associativity,
-                        // i.e. `x OP (y OP z)`, convert to `(x OP y) OP z`.
-
-                        let expr_pos = expr.position.clone();
-
-                        let new_inner = Expression::new(
-                            Position::merge(&expr_pos, &next_lhs.position),
-                            Expression_::BinaryOperator(
-                                Rc::new(expr),
-                                token_as_binary_op(&token).unwrap(),
-                                next_lhs,
-                            ),
-                            id_gen.next(),
-                        );
-
-                        expr = Expression::new(
-                            Position::merge(&expr_pos, &next_rhs.position),
-                            Expression_::BinaryOperator(Rc::new(new_inner), next_op, next_rhs),
-                            id_gen.next(),
-                        );
-                    }
-                    _ => {
-                        expr = Expression::new(
-                            Position::merge(&expr.position, &rhs_expr.position),
-                            Expression_::BinaryOperator(
-                                Rc::new(expr),
-                                token_as_binary_op(&token).unwrap(),
-                                Rc::new(rhs_expr),
-                            ),
-                            id_gen.next(),
-                        );
-                    }
-                }
+                expr = Expression::new(
+                    Position::merge(&expr.position, &rhs_expr.position),
+                    Expression_::BinaryOperator(
+                        Rc::new(expr),
+                        token_as_binary_op(&token).unwrap(),
+                        Rc::new(rhs_expr),
+                    ),
+                    id_gen.next(),
+                );
             }
             _ => break,
         }
